@@ -78,6 +78,24 @@ func negotiatedVersion(clientVersion string) string {
 	return protocolVersion20251125
 }
 
+// legacyVersionFor adjusts version, the protocol version that initialize would
+// answer with, to the versions the session's transport can serve. If the
+// transport serves version it is kept; otherwise the newest legacy (pre
+// protocolVersion20260728) version served by the transport is used. It returns
+// "" if the transport serves no legacy version at all, in which case the
+// initialize handshake cannot succeed.
+func legacyVersionFor(version string, transportVersions []string) string {
+	if slices.Contains(transportVersions, version) {
+		return version
+	}
+	for _, v := range supportedProtocolVersions {
+		if v < protocolVersion20260728 && slices.Contains(transportVersions, v) {
+			return v
+		}
+	}
+	return ""
+}
+
 // negotiateMutuallySupportedVersion returns a protocol version that is supported
 // by both the client and the server.
 func negotiateMutuallySupportedVersion(supported []string) string {
